@@ -112,6 +112,7 @@ def vf : P String := do
       if id ≥ lvl.length then vd.failIf true s!"Policy id_out_of_range h={h} id={id}" else
       let e := entryAt lvl id
       let vd := vd.failIf (a != e.action) s!"Policy action_mismatch h={h} a={a} entry={e.action}"
+      let vd := vd.failIf (a ≥ m.A) s!"Policy action_out_of_range h={h} a={a}"
       let vd := vd.failIf (!pok) s!"Policy action_probability_wrong h={h}"
       let mine := dot m.S b (val e)
       let best := envV m.S lvl b
@@ -434,8 +435,11 @@ def pbviw : P String := do
 /-- `mk S A O | vf | vf` : `makeValueFunction(S)` and the value function of `Policy(S, A, O)` are the model's `zeroVF S` -/
 def mk : P String := do
   let S ← P.nat; let _A ← P.nat; let _O ← P.nat; P.bar
-  let v1 ← vfP; P.bar; let v2 ← vfP; P.eof
+  let v1 ← vfP; P.bar; let v2 ← vfP; P.bar
+  let thrown ← P.tok; let hh ← P.nat; let oo ← P.nat; P.eof
   let vd : Verdict := { tag := "mk" }
+  let vd := vd.failIf (thrown != "invalid_argument") s!"Policy empty_value_function_accepted thrown={thrown}"
+  let vd := vd.failIf (hh != 0 || oo != _O) s!"Policy default_H_or_O_wrong H={hh} O={oo}"
   let vd := vd.failIf (v1 != zeroVF S) "makeValueFunction not_the_zero_entry"
   let vd := vd.failIf (v2 != zeroVF S) "Policy default_value_function_wrong"
   return vd.render
